@@ -5,12 +5,12 @@ CONSTANTS
   MaxH = 1
   Bodies <- Bodies4
   Peers <- PeersOne
-  ClNames <- ClMixed
+  ClNames <- ClLower
   ClPos = {"last"}
   Mode = "lemma"
   Cap = 8192
   Dev = {}
-INIT Init
+INIT InitAQ
 NEXT Next
 INVARIANTS Inv_WellFormed Lemma_DenoteRender Lemma_Canonical
 CHECK_DEADLOCK FALSE
